@@ -8,7 +8,7 @@ binding:  harness/cmd/c07 executes the real routing.getSPOEReqActions / getSPOER
 """
 import json, os
 from vlib import Broken, read_ndjson
-from fnjudge import judge_cases
+from fnjudge import judge_cases, exhaustive_parallel
 
 SPEC = "c07_actions"
 REFUTED = ["swap_merge", "modh_early_left", "resp_noop_self", "gen_modh_drop"]     # must be refuted by TLC (non-vacuity)
@@ -163,18 +163,12 @@ def run(ctx):
                         "how Retry ranks against ModifyResponse and how retries merge are not fixed by the statement and are left open"]
 
     # (1) exhaustive I => P; broken variants must be refuted, variants the statement does not forbid must pass
-    ctx.tlc_exhaustive(sd, "MC_C07", "MC_small4_none.cfg" if not T else "MC_large.cfg", timeout=1500,
-                       label="I=>P: every sequence up to the bound", workers=8 if not T else None)
-    if T:
-        ctx.tlc_exhaustive(sd, "MC_C07", "MC_small5_none.cfg", timeout=1500, label="I=>P: small alphabet, length 5")
-    for b in REFUTED:
-        r = ctx.tlc(sd, "MC_C07", "MC_small_%s.cfg" % b, timeout=300, workers=4, label="non-vacuity: %s must be refuted" % b)
-        if r.violated != "Conforms":
-            raise Broken("the model does not distinguish the broken variant %s from the property (vacuous): %r" % (b, r))
-    for b in ACCEPTED:
-        r = ctx.tlc(sd, "MC_C07", "MC_small_%s.cfg" % b, timeout=300, workers=4, label="permissiveness: %s must be accepted" % b)
-        if not r.ok:
-            raise Broken("the property spec rejects variant %s which the statement does not forbid: %r" % (b, r))
+    runs = [("MC_small4_none.cfg", "I=>P: every sequence up to length 4, small alphabet", None)] if not T else \
+           [("MC_large.cfg", "I=>P: every sequence up to length 4, large alphabet", None),
+            ("MC_small5_none.cfg", "I=>P: every sequence up to length 5, small alphabet", None)]
+    runs += [("MC_small_%s.cfg" % b, "non-vacuity: %s must be refuted" % b, "Conforms") for b in REFUTED]
+    runs += [("MC_small_%s.cfg" % b, "permissiveness: %s must be accepted" % b, "accepted") for b in ACCEPTED]
+    exhaustive_parallel(ctx, sd, "MC_C07", runs, workers=4 if not T else 8, par=7 if not T else 3)
 
     seen = set()
     # (2) spec -> code: the whole bounded input space, generated by TLC with the reference result, replayed
